@@ -29,7 +29,7 @@ contract(F, "iterRange",
              "unchanged_list(self.coords)", "unchanged_list(self.payloads)",
              "forall(lambda k: allocated(out[k][1]), 0, len(out))",
              # without a start position the saved-position bookkeeping is not touched at all
-             "implies(isnone(start_pos), self._saved_pos == old(self._saved_pos) and self._saved_count == old(self._saved_count) and self._saved_dist == old(self._saved_dist))",
+             "implies(isnone(start_pos), self._saved_pos == old(self._saved_pos))",
              "forall(lambda a, b: implies(0 <= a and a < b and b < len(out), out[a][0] < out[b][0]))",
              # the saved position addresses the last element yielded (a legal shortcut for any later traversal)
              "isnone(start_pos) or len(out) == 0 or (0 <= self._saved_pos < len(self.coords) and self.coords[self._saved_pos] == out[len(out) - 1][0])",
@@ -42,7 +42,7 @@ contract(F, "iterRange",
              types={"coord": "int", "payload": "Payload|Fiber", "j": "int"},
              modifies=BOOK,
              invariant=[
-                 "wf(self)", "i >= 0", "not is_collecting", "forall(lambda k: allocated(out[k][1]), 0, len(out))", "implies(isnone(start_pos), self._saved_pos == old(self._saved_pos) and self._saved_count == old(self._saved_count) and self._saved_dist == old(self._saved_dist))",
+                 "wf(self)", "i >= 0", "not is_collecting", "forall(lambda k: allocated(out[k][1]), 0, len(out))", "implies(isnone(start_pos), self._saved_pos == old(self._saved_pos))",
                  "isnone(start_pos) or len(out) == 0 or (0 <= self._saved_pos < len(self.coords) and self.coords[self._saved_pos] == out[len(out) - 1][0])",
                  "forall(lambda a, b: implies(0 <= a and a < b and b < len(out), out[a][0] < out[b][0]))",
                  "forall(lambda k: out[k][0] < self.coords[i + _i0], 0, len(out)) or i + _i0 >= len(self.coords)",
@@ -56,6 +56,10 @@ contract(F, "_get_next", inline=True)
 
 # what a fiber *presents* is the sequence Fiber.__iter__ yields: its contract (format dispatch to iterRange / iterRangeShape, proved) is in
 # wrappers.py.  FMT_OK: the operand is traversed compressed (any rank), or uncompressed at a leaf rank holding boxes.
+# the search statistics of an operand (bookkeeping no property speaks about) may change when it is traversed
+STATS_AB = ["self.a_fiber._saved_count", "self.a_fiber._saved_dist", "self.b_fiber._saved_count", "self.b_fiber._saved_dist"]
+
+
 def FMT_OK(x):
     fmt = "(val(%s._owner)._attrs._fmt if not isnone(%s._owner) else %s._rank_attrs._fmt)" % (x, x, x)
     return ("(%s == 'C' or (%s == 'U' and isnone(%s._max_coord) and %s.g_leaf and forall(lambda k: typeis(%s.payloads[k], 'Payload'), 0, len(%s.payloads))))"
@@ -83,7 +87,7 @@ AND_COMPLETE = ("forall(lambda i, j: implies(0 <= i and i < len(a.seq) and 0 <= 
 contract(F, "__and__.and_iterator.__iter__", types=dict(self="and_iterator"),
          yields=dict(elem="tuple[int,tuple[Payload|Fiber,Payload|Fiber]]"),
          requires=["wf(self.a_fiber)", "wf(self.b_fiber)", "not Metrics.collecting", FMT_OK("self.a_fiber"), FMT_OK("self.b_fiber")],
-         modifies=[],
+         modifies=STATS_AB,
          ensures={"C04 C10": [
              SORTED_OUT.replace("a.", "final(a)."),
              (AND_SOUND % ("len(a.seq)", "len(b.seq)")).replace("a.seq", "final(a).seq").replace("b.seq", "final(b).seq"),
@@ -150,7 +154,7 @@ LEAF_AB = ["wf(self.a_fiber)", "wf(self.b_fiber)", "self.a_fiber.g_leaf", "self.
 
 contract(F, "__or__.or_iterator.__iter__", types=dict(self="or_iterator"),
          yields=dict(elem=UNION_ELEM),
-         requires=LEAF_AB, modifies=[],
+         requires=LEAF_AB, modifies=STATS_AB,
          ensures={"C04 C10": [
              fin(SORTED_OUT)] + [fin(x) for x in or_sound("len(a.seq)", "len(b.seq)")] + [DIST_A, DIST_B] + [
              fin("forall(lambda i: exists(lambda k: 0 <= k and k < len(out) and out[k][0] == a.seq[i][0]), 0, len(a.seq))"),
@@ -170,7 +174,7 @@ XOR_LEAF = ["wf(self.a_fiber)", "wf(self.b_fiber)", "self.a_fiber.g_leaf", "self
 
 contract(F, "__xor__.xor_iterator.__iter__", types=dict(self="xor_iterator"),
          yields=dict(elem=UNION_ELEM),
-         requires=XOR_LEAF, modifies=[],
+         requires=XOR_LEAF, modifies=STATS_AB,
          ensures={"C04 C10": [fin(SORTED_OUT)] + [fin(x) for x in or_sound("len(a.seq)", "len(b.seq)", with_ab=False)] + [DIST_A, DIST_B] + [
              fin("forall(lambda i: exists(lambda j: 0 <= j and j < len(b.seq) and b.seq[j][0] == a.seq[i][0]) or exists(lambda k: 0 <= k and k < len(out) and out[k][0] == a.seq[i][0]), 0, len(a.seq))"),
              fin("forall(lambda j: exists(lambda i: 0 <= i and i < len(a.seq) and a.seq[i][0] == b.seq[j][0]) or exists(lambda k: 0 <= k and k < len(out) and out[k][0] == b.seq[j][0]), 0, len(b.seq))")]},
@@ -187,7 +191,7 @@ SUB_INV = [SORTED_A, SORTED_B, A_HEAD, B_HEAD, SORTED_OUT, OUT_LT, H_A, H_B, GE_
 
 contract(F, "__sub__.sub_iterator.__iter__", types=dict(self="sub_iterator"),
          yields=dict(elem=ELEM),
-         requires=["wf(self.a_fiber)", "wf(self.b_fiber)", "not Metrics.collecting", FMT_OK("self.a_fiber"), FMT_OK("self.b_fiber")], modifies=[],
+         requires=["wf(self.a_fiber)", "wf(self.b_fiber)", "not Metrics.collecting", FMT_OK("self.a_fiber"), FMT_OK("self.b_fiber")], modifies=STATS_AB,
          ensures={"C04 C10": [fin(SORTED_OUT),
                               fin("forall(lambda k: " + SUB_IN_A % "len(a.seq)" + ", 0, len(out))"),
                               fin("forall(lambda k: " + NOT_IN_B + ", 0, len(out))"),
@@ -208,7 +212,7 @@ LSHIFT_REQ = ["wf(%s)" % A, "isnone(%s._max_coord)" % A, "%s.g_leaf" % A,
               # leaf rank: no next rank to pop from
               "isnone(%s._owner) or isnone(val(%s._owner).next_rank)" % (A, A),
               PAYLOADS_DISTINCT, PAYLOADS_ALLOCATED]
-LSHIFT_MOD = ["list:%s.coords" % A, "list:%s.payloads" % A, "%s._saved_pos" % A, "%s._saved_count" % A, "%s._saved_dist" % A,
+LSHIFT_MOD = ["self.b_fiber._saved_count", "self.b_fiber._saved_dist", "list:%s.coords" % A, "list:%s.payloads" % A, "%s._saved_pos" % A, "%s._saved_count" % A, "%s._saved_dist" % A,
               "any:Payload.value"]
 
 contract(F, "__lshift__.lshift_iterator.__iter__", types=dict(self="lshift_iterator"), tier="P",
@@ -288,10 +292,10 @@ contract(F, "iterRangeShape",
          requires=SHAPE_REQ, modifies=BOOK,
          per_case={"unit_step": dict(ensures=["forall(lambda k: out[k][0] == start + k, 0, len(out))"]),
                    "unit_step_tick": dict(ensures=["forall(lambda k: out[k][0] == start + k, 0, len(out))"])},
-         ensures={"C07 C10": ["unchanged_list(self.coords)", "unchanged_list(self.payloads)", "self._saved_pos == old(self._saved_pos) and self._saved_count == old(self._saved_count) and self._saved_dist == old(self._saved_dist)",
+         ensures={"C07 C10": ["unchanged_list(self.coords)", "unchanged_list(self.payloads)", "self._saved_pos == old(self._saved_pos)",
                               "len(out) == (0 if end <= start else (end - start + step - 1) // step)"] + STORED_OR_DEFAULT},
          loops={0: dict(types={"c": "int", "p": "Payload|Fiber"}, modifies=BOOK,
-                        invariant=["wf(self)", "not is_collecting", "len(out) == _i0", "self._saved_pos == old(self._saved_pos) and self._saved_count == old(self._saved_count) and self._saved_dist == old(self._saved_dist)"] + STORED_OR_DEFAULT)},
+                        invariant=["wf(self)", "not is_collecting", "len(out) == _i0", "self._saved_pos == old(self._saved_pos)"] + STORED_OR_DEFAULT)},
          note="every coordinate of range(start, end, step), each with the stored payload or a fresh default; the tree is not touched")
 
 REF_POST = [
